@@ -80,6 +80,9 @@ type Ctx struct {
 	// TolerateLeak: goroutines left blocked when the bubble ends are expected (a background loop died after an
 	// injected I/O fault and its clients wait forever) and are not a harness error.
 	TolerateLeak bool
+	// After holds work to be done once the bubble has ended (real clock, real goroutines): e.g. linearizability
+	// checking, whose time-out must not run on the simulated clock.
+	After []func()
 }
 
 func (c *Ctx) Violate(clause string, sig map[string]string, step int, format string, a ...any) {
